@@ -147,6 +147,20 @@ def strings_SplitN (s sep : Bytes) (_n : Int) : List Bytes :=
   match sep with
   | [c] => if s.contains c then [s.takeWhile (· != c), (s.dropWhile (· != c)).drop 1] else [s]
   | _ => [s]
+/-- `strings.Split(s, sep)` / `strings.Count(s, sep)` / `strings.Join(parts, sep)` for a one-byte separator -/
+def strings_Split (s sep : Bytes) : List Bytes :=
+  match sep with
+  | [c] =>
+    let rec go : Bytes → Bytes → List Bytes
+      | [], cur => [cur.reverse]
+      | x :: t, cur => if x == c then cur.reverse :: go t [] else go t (x :: cur)
+    go s []
+  | _ => [s]
+def strings_Count (s sep : Bytes) : Int :=
+  match sep with
+  | [c] => (s.filter (· == c)).length
+  | _ => 0
+def strings_Join (parts : List Bytes) (sep : Bytes) : Bytes := bytes_Join parts sep
 /-- a Go `map[K]V` with integer keys and values: a missing key reads as the zero value -/
 def mapGet (m : List (Int × Int)) (k : Int) : Int := ((m.find? (·.1 == k)).map (·.2)).getD 0
 def mapSet (m : List (Int × Int)) (k v : Int) : List (Int × Int) := (k, v) :: m.filter (·.1 != k)
